@@ -15,11 +15,36 @@ class Mismatch:
         return (f"decisions (non-default): {dec!r}\n    emitted : {fmt(self.got)}\n    expected: {fmt(self.want)}")
 
 
+LAST = {"cuts": 0, "unstable_cuts": 0}
+
+
+def _clo(t):
+    """Closure values are compared by their behaviour when called, not by identity."""
+    if isinstance(t, tuple):
+        if t and t[0] in ("closure", "hyclosure"):
+            return ("closure",)
+        return tuple(_clo(x) for x in t)
+    return t
+
+
 def _norm(o):
     tr, kind, val = o
     if kind == "cut":
         val = None
-    return (tr, kind, val)
+    return (_clo(tr), kind, _clo(val))
+
+
+def _same(got, want):
+    if got == want:
+        return True
+    if got[1] == "cut" or want[1] == "cut":
+        # exploration bound reached on one side: nothing is claimed beyond it, the common prefix must agree
+        a, b = got[0], want[0]
+        n = min(len(a), len(b))
+        return a[:n] == b[:n]
+    if got[:2] == want[:2] and isinstance(want[2], tuple) and want[2] and want[2][0] == "oneof":
+        return got[2] in want[2][1]
+    return False
 
 
 def compare(result, form, expand=None, limit=200000, **ctxkw):
@@ -27,11 +52,13 @@ def compare(result, form, expand=None, limit=200000, **ctxkw):
     paths = pysem.explore(pysem.run_result(result, **ctxkw), limit=limit)
     bad = []
     n = 0
+    LAST["cuts"] = sum(1 for _, g in paths if g[1] == "cut")
+    LAST["unstable_cuts"] = sum(1 for _, g in paths if g[1] == "cut" and not (g[2] and g[2][1]))
     for dec, got in paths:
         refs = pysem.explore(hysem.run_form(form, follow=got[0], expand=expand, **ctxkw), fixed=dec, limit=limit)
         for d2, want in refs:
             n += 1
-            if _norm(got) != _norm(want):
+            if not _same(_norm(got), _norm(want)):
                 bad.append(Mismatch({**dec, **d2}, got, want))
                 if len(bad) >= 3:
                     return n, bad
